@@ -63,16 +63,18 @@ def seed_everything(m, x, ctx):
 def job(cfg):
     case = CS.by_name(cfg["case"])
     training = cfg["training"]
+    direction = cfg.get("direction", "forward")
+    nrows = cfg.get("n", 1)
     timeout = cfg["timeout"]
     R = sc.new_registry()
     solver = smt.Z3Proc()
     jr = C01.new_jr(case.name)
-    name = "%s/%s" % (case.name, "training" if training else "eval")
+    name = "%s/%s/%s" % (case.name, direction, "training" if training else "eval")
     h = {}
     CFG.simplex_shortcut = False
     try:
         def fn():
-            m, params, x, ctx, asm = case.build_symbolic(n=1, seed=False)
+            m, params, x, ctx, asm = case.build_symbolic(n=nrows, seed=False)
             if training:
                 torch.nn.Module.train(m, True)
             names = seed_everything(m, x, ctx)
@@ -80,12 +82,49 @@ def job(cfg):
             for a in asm:
                 explore.assume(a)
             with stubs.torch_patches():
-                return m(x, ctx) if ctx is not None else m(x)
+                f = m if direction == "forward" else m.inverse
+                return f(x, ctx) if ctx is not None else f(x)
 
         ex = explore.Explorer(R, solver, decide_timeout=8.0, max_paths=200)
         results = ex.explore(fn)
+        # second run: detach / no_grad / .data do not clear derivatives.  The values are the same, so are the paths;
+        # any difference in a dual part is a derivative that the code hides from autograd although the value depends
+        # on it (finite differences would see it).
+        sc.IGNORE_DETACH[0] = True
+        try:
+            ex2 = explore.Explorer(R, solver, decide_timeout=8.0, max_paths=200)
+            results_free = ex2.explore(fn)
+        finally:
+            sc.IGNORE_DETACH[0] = False
     finally:
         CFG.simplex_shortcut = True
+    if len(results_free) == len(results):
+        for i, (ra, rb) in enumerate(zip(results, results_free)):
+            if ra.kind != "return" or rb.kind != "return":
+                continue
+            ea = list(ra.value[0].a.reshape(-1)) + list(ra.value[1].a.reshape(-1))
+            eb = list(rb.value[0].a.reshape(-1)) + list(rb.value[1].a.reshape(-1))
+            diffs = []
+            for a, b in zip(ea, eb):
+                for k in set(a.d or {}) | set(b.d or {}):
+                    da, db = (a.d or {}).get(k, tm.ZERO), (b.d or {}).get(k, tm.ZERO)
+                    if da is not db:
+                        diffs.append((k, da, db))
+            st = "unsat"
+            if diffs:
+                from symtorch import poly
+
+                gs = [poly.eq_goal(da, db)[0] for _, da, db in diffs[:40]]
+                o = C.prove(R, solver, "%s/path%d/duals-unaffected-by-detach" % (name, i), tm.and_(*gs), [ra.path.condition()], timeout)
+                jr["outcomes"].append(o.as_dict())
+                st = o.status
+            else:
+                jr["outcomes"].append({"name": "%s/path%d/duals-unaffected-by-detach" % (name, i), "kind": "goal", "status": "unsat", "s": 0.0, "expect": "unsat", "rung": "syntactic"})
+            if st == "sat":
+                who = sorted({h["names"][k].args[0] for k, _, _ in diffs if k in h["names"]})[:5]
+                report(jr, case.name, training, "detached-derivative", "detach / no_grad / .data hides the derivative w.r.t. %s although the result depends on it" % who, direction=direction, n=nrows)
+            elif st != "unsat":
+                jr["inconclusive"].append({"query": "%s/path%d/duals-unaffected-by-detach" % (name, i), "status": st})
     jr["paths"] = len(results)
     jr["prune_queries"] = ex.stats["prune_queries"]
     n_ret = 0
@@ -125,7 +164,7 @@ def job(cfg):
     if n_ret == 0:
         jr["inconclusive"].append({"query": name, "why": "no returning path"})
     # trace validation against torch.autograd on the real module
-    val = validate_autograd(case, training, results, h, R, cfg.get("nval", 3), jr)
+    val = validate_autograd(case, training, results, h, R, cfg.get("nval", 3), jr) if (direction == "forward" and nrows == 1 and cfg.get("nval", 3)) else 0
     jr["validated"] = val
     jr["samples"].append({"case": name, "seeds": len(h.get("names", {})), "paths": len(results)})
     solver.close()
@@ -215,13 +254,13 @@ def validate_backward_only(case, training, jr):
         return 0
 
 
-def report(jr, case_name, training, relation, err):
+def report(jr, case_name, training, relation, err, direction="forward", n=1):
     if any(v["relation"] == relation for v in jr["violations"]):
         return
     with stubs.real_torch():
-        rep = replay(case_name, training)
+        rep = replay(case_name, training, direction=direction, n=n)
     sig = {"case": case_name.split("/")[0], "relation": relation}
-    payload = {"property": PROP, "kernel": case_name, "relation": relation, "signature": sig, "error": err, "replay_result": rep, "replay_call": {"fn": "harness.C16:replay", "args": {"case_name": case_name, "training": training}}}
+    payload = {"property": PROP, "kernel": case_name, "relation": relation, "signature": sig, "error": err, "replay_result": rep, "replay_call": {"fn": "harness.C16:replay", "args": {"case_name": case_name, "training": training, "direction": direction, "n": n}}}
     if rep.get("reproduced"):
         fn = "".join(ch if ch.isalnum() else "_" for ch in "%s_%s" % (case_name, relation))[:100]
         jr["violations"].append({"kernel": case_name, "relation": relation, "signature": sig, "replay": C.write_replay(PROP, fn, payload), "detail": rep})
@@ -229,13 +268,13 @@ def report(jr, case_name, training, relation, err):
         jr["inconclusive"].append({"query": case_name + "/" + relation, "why": "not reproduced with autograd vs finite differences", "error": err, "replay": rep})
 
 
-def replay(case_name, training, seed=0):
+def replay(case_name, training, seed=0, direction="forward", n=1):
     """autograd gradient vs central finite differences of sum(outputs) + sum(logabsdet) for every parameter / input."""
     res = {"reproduced": False}
     try:
         case = CS.by_name(case_name)
         torch.manual_seed(seed)
-        m, x, ctx = case.build_real({})
+        m, x, ctx = case.build_real({}, n=n)
         if any(isinstance(mod, (stubs.UFNet, TK.ARStub)) for mod in m.modules()):
             C01._concretise_stubs(m)
         m.train(training)
@@ -245,10 +284,17 @@ def replay(case_name, training, seed=0):
         x = torch.rand_like(x) * 0.6 + 0.2
         if ctx is not None:
             ctx = torch.randn_like(ctx)
+        call = m if direction == "forward" else m.inverse
+        wts = torch.randn(x.shape, dtype=x.dtype)
+        sd0 = {k: v.clone() for k, v in m.state_dict().items()}
 
         def f():
-            y, lad = m(x, ctx) if ctx is not None else m(x)
-            return y.sum() + lad.sum()
+            with torch.no_grad():
+                for bn_, b_ in m.named_buffers():  # training-mode statistics must not drift between evaluations
+                    if bn_ in sd0 and b_.shape == sd0[bn_].shape:
+                        b_.copy_(sd0[bn_])
+            y, lad = call(x, ctx) if ctx is not None else call(x)
+            return (y * wts).sum() + lad.sum()
 
         params = [p for p in m.parameters()] + [x] + ([ctx] if ctx is not None else [])
         for p in params:
@@ -295,6 +341,10 @@ def configs(tier):
         if "PiecewiseCubic" in c.name and tier == "quick":
             continue
         cfgs.append({"case": c.name, "training": False, "timeout": t, "nval": 3})
+    cfgs.append({"case": "BatchNorm/eval", "training": True, "n": 2, "timeout": t, "nval": 0})
+    cfgs.append({"case": "MaskedAffineAutoregressive/D=2", "training": False, "direction": "inverse", "timeout": t, "nval": 0})
+    cfgs.append({"case": "AffineCoupling/D=2", "training": False, "direction": "inverse", "timeout": t, "nval": 0})
+    cfgs.append({"case": "LULinear/D=2", "training": False, "direction": "inverse", "timeout": t, "nval": 0})
     for nm in ("ActNorm/2d", "LULinear/D=2,cache", "AffineCoupling/D=2", "MaskedAffineAutoregressive/D=2", "PiecewiseRationalQuadraticCDF/K=1,tails=linear", "Sigmoid/learned-T" if tier != "quick" else "Sigmoid/2d"):
         cfgs.append({"case": nm, "training": True, "timeout": t, "nval": 2})
     return cfgs
